@@ -40,6 +40,13 @@ Correspondence (this file + impl/impl_c19.py + coq/model/FmtSpecTie.v):
      and down-scaled sizes, set_render_method) at several seek positions: every transmitted
      picture is decoded: frames held, frame shown; equality with the frame of
      ImageIterator(image, 1, spec).
+  6. WHICH error (impl/impl_c19.py records the exact exception class + the kind of its message;
+     coq/model/FmtErr.v, FmtErrTie.v): specifiers that are wrong in MORE THAN ONE WAY — a fault of
+     the general form x a style part that is not a sentence (foreign leading / trailing portion,
+     fields out of order, a field of another style) x a field value outside its documented range
+     (z-index at and beyond +-2**31, ASCII and non-ASCII digits) — and every case of part 2: the
+     class is judged inside Coq against the documented precedence (FmtErr.spec_error) and class +
+     message kind against the call-chain model (FmtErr.impl_error).
 """
 from __future__ import annotations
 
@@ -49,11 +56,12 @@ import re
 import core
 
 LEVEL = "proof"
-EXTRA_TARGETS = ["model/FmtSpecTie.vo", "model/FmtEnvTie.vo", "model/FmtDenTie.vo", "model/FmtDenPixTie.vo"]
+EXTRA_TARGETS = ["model/FmtSpecTie.vo", "model/FmtEnvTie.vo", "model/FmtDenTie.vo", "model/FmtDenPixTie.vo",
+                 "model/FmtErrTie.vo"]
 STYLES = ["block", "kitty", "iterm2"]
 COQ_STYLE = {"block": "Block", "kitty": "Kitty", "iterm2": "ITerm2"}
 HEADER = ("From Coq Require Import List NArith ZArith.\nImport ListNotations.\n"
-          "From TI Require Import lib.Re model.FmtSpec model.FmtSpecTie model.FmtEnv model.FmtEnvTie model.FmtDen model.FmtDenTie model.FmtDenPix model.FmtDenPixTie.\n"
+          "From TI Require Import lib.Re model.FmtSpec model.FmtSpecTie model.FmtEnv model.FmtEnvTie model.FmtDen model.FmtDenTie model.FmtDenPix model.FmtDenPixTie model.FmtErr model.FmtErrTie.\n"
           "Open Scope nat_scope.\n")
 TERMS = [[80, 30], [100, 50], [12, 5], [3, 3]]
 
@@ -395,6 +403,206 @@ def exhaustive(ctx, reps, out, table=()):
                 out["extra"].setdefault("outcome_counts_differ_from_documented_grammar", []).append(info)
     out["_confirm"] += confirm
     return acc_cases
+
+
+
+# --------------------------------------------------------------------- which error (part 6)
+
+Z_EDGE = [2 ** 31 - 1, 2 ** 31, -(2 ** 31) + 1, -(2 ** 31), 2 ** 32, -(2 ** 32), 10 ** 12, 99999999999999999999]
+ARABIC = str.maketrans("0123456789", "٠١٢٣٤٥٦٧٨٩")
+GENERAL_OK = ["", "<10.^3#", "#ffffff", ">._2##", "|0.0#.5"]
+GENERAL_BAD = ["1<", ".", "3.", "#0", "#.", "<<", "^", " "]
+LEAD = {"kitty": ["x", " ", "A", "m1", "c3", "z", "z-", "-", "9", "٣"],
+        "iterm2": ["x", " ", "z1", "m1c2", "c3", "9", "z4294967296"],
+        "block": ["x"]}
+TRAIL = {"kitty": ["x", " ", "L", "0", "z1", "m", "\r"], "iterm2": ["x", " ", "A", "0", "z1", "c"], "block": ["x"]}
+CLS_CODE = {"builtins.ValueError": 1, "term_image.exceptions.StyleError": 2}
+
+
+def z_texts(v):
+    t = str(v)
+    return [t, t.translate(ARABIC)]
+
+
+def err_corpus(style, quick):
+    """(spec, label) — every combination class of two (or three) faults of different categories."""
+    res = []
+    gens_ok = GENERAL_OK[:2] if quick else GENERAL_OK
+    gens_bad = GENERAL_BAD[:2] if quick else GENERAL_BAD
+    leads = LEAD[style][:4] if quick else LEAD[style]
+    trails = TRAIL[style][:2] if quick else TRAIL[style]
+    if style == "kitty":
+        zs = [t for v in (Z_EDGE[:6] if quick else Z_EDGE) for t in (z_texts(v)[:1] if quick and abs(v) != 2 ** 31 else z_texts(v))]
+        for g in gens_ok + gens_bad:
+            gl = "general-ok" if g in GENERAL_OK else "general-fault"
+            for zt in zs:
+                zv = int(zt)
+                zl = "z-in-range" if -(2 ** 31) < zv < 2 ** 31 else "z-out-of-range"
+                for meth in ("", "W"):
+                    for tail in ("", "m1c9"):
+                        if quick and meth and tail:
+                            continue
+                        core_ = meth + "z" + zt + tail
+                        res.append((g + "+" + core_, f"{gl}/{zl}"))
+                        for ld in leads:
+                            res.append((g + "+" + ld + core_, f"{gl}/foreign-leading/{zl}"))
+                        for tr in trails:
+                            res.append((g + "+" + core_ + tr, f"{gl}/foreign-trailing/{zl}"))
+                        if not quick or not (meth or tail):
+                            res.append((g + "+" + leads[0] + core_ + trails[0], f"{gl}/foreign-both/{zl}"))
+                            res.append((g + "+" + "m1" + meth + "z" + zt, f"{gl}/fields-out-of-order/{zl}"))
+    else:
+        body = {"iterm2": ["A", "Lm1", "c9", "Wm0c0"], "block": ["L", "z1"]}[style]
+        for g in gens_ok + gens_bad:
+            gl = "general-ok" if g in GENERAL_OK else "general-fault"
+            for b in body:
+                res.append((g + "+" + b, f"{gl}/style-ok" if style == "iterm2" else f"{gl}/no-style-grammar"))
+                for ld in leads:
+                    res.append((g + "+" + ld + b, f"{gl}/foreign-leading"))
+                for tr in trails:
+                    res.append((g + "+" + b + tr, f"{gl}/foreign-trailing"))
+    return res
+
+
+def err_random(rng, style, n):
+    res = []
+    for _ in range(n):
+        g = rng.choice(GENERAL_OK + GENERAL_OK + GENERAL_BAD) if rng.random() < 0.7 else gen_sentence(rng, "block")
+        if too_big(g):
+            g = ""
+        t = ""
+        faults = []
+        if rng.random() < 0.6:
+            t += rng.choice(LEAD[style])
+            faults.append("foreign-leading")
+        if rng.random() < 0.5:
+            t += rng.choice("LW" if style == "kitty" else "LWA")
+        if style == "kitty" and rng.random() < 0.85:
+            v = rng.choice(Z_EDGE + [rng.choice([-1, 1]) * (2 ** 31 + rng.randrange(-2, 3)), rng.randrange(-2 ** 40, 2 ** 40),
+                                     rng.randrange(-9, 10)])
+            t += "z" + rng.choice(z_texts(v))
+            faults.append("z-in-range" if -(2 ** 31) < v < 2 ** 31 else "z-out-of-range")
+        if rng.random() < 0.4:
+            t += "m" + rng.choice("01")
+        if rng.random() < 0.4:
+            t += "c" + rng.choice("0123456789")
+        if rng.random() < 0.4:
+            t += rng.choice(TRAIL[style])
+            faults.append("foreign-trailing")
+        if not t:
+            t = "L"
+        res.append((g + "+" + t, "random:" + "/".join(faults)))
+    return res
+
+
+def ecase_term(style, spec, o):
+    cls = 0 if o["k"] == 0 else CLS_CODE.get(o.get("cls"), 9)
+    return "{| e_sty := %s; e_spec := %s; e_cls := %d; e_msg := %d |}" % (
+        COQ_STYLE[style], nlist([ord(c) for c in spec]), cls, 0 if o["k"] == 0 else o.get("msgk", 9))
+
+
+def check_err(pairs, obs=None, tag="c19x"):
+    """pairs: (style, spec).  Returns (codes, obs, anomalies, errors)."""
+    if not pairs:
+        return [], [], [], []
+    anomalies = []
+    if obs is None:
+        obs, anomalies = run_cases([(st, sp, [80, 30]) for st, sp in pairs])
+    terms = [ecase_term(st, sp, o) for (st, sp), o in zip(pairs, obs)]
+    bad, errors = core.coq_shards(tag, HEADER, terms, "ecase", "ebad cases", shard=400)
+    codes = [0] * len(pairs)
+    for i, c in bad:
+        codes[i] = c
+    return codes, obs, anomalies, errors
+
+
+def err_failure(style, spec, o, code):
+    got = o.get("cls", "no exception (accepted)") if o["k"] else "no exception (accepted)"
+    return {
+        "signature": core.sig({"spec": spec}),
+        "what": (f"format({COQ_STYLE[style]}Image, {spec!r}) raises {got}"
+                 f"{' (' + o.get('msg', '') + ')' if o['k'] else ''}: not the documented error for this specifier "
+                 f"(precedence: general form -> ValueError; style part not a sentence of the style's grammar -> StyleError "
+                 f"whatever the field values; field of a sentence out of range -> ValueError) (check code {code})"),
+        "replay": {"kind": "err", "style": style, "spec": spec, "term": [80, 30], "observed": o, "code": code},
+    }
+
+
+def shrink_err(style, spec):
+    cur = spec
+    for _ in range(14):
+        cands = list(dict.fromkeys(cur[:i] + cur[i + 1:] for i in range(len(cur))))
+        if not cands:
+            break
+        codes, _, _, errs = check_err([(style, c) for c in cands], tag="c19xs")
+        nxt = next((c for c, k in zip(cands, codes) if k >= 2), None)
+        if nxt is None or errs:
+            break
+        cur = nxt
+    return cur
+
+
+def err_part(ctx, out, judged=()):
+    """judged: (style, spec, obs) already observed by part 2 — judged here as well."""
+    rng = ctx.rng
+    if ctx.replay:
+        rp = ctx.replay["replay"]
+        pairs, labels = [(rp["style"], rp["spec"])], ["replay"]
+    else:
+        pairs, labels = [], []
+        for st in STYLES:
+            for sp, lb in err_corpus(st, ctx.quick) + err_random(rng, st, (40 if ctx.quick else 1200) if st != "block" else 10):
+                pairs.append((st, sp))
+                labels.append(lb)
+    codes, obs, anomalies, errs = check_err(pairs)
+    out["errors"] += errs
+    out["evaluations"] += len(pairs)
+    for (tr, what) in anomalies:
+        st, sp, tm = tr
+        out["failures"].append({"signature": core.sig({"spec": sp, "anomaly": what.split(":")[0]}),
+                                "what": f"{st}: format(image, {sp!r}): {what}",
+                                "replay": {"style": st, "spec": sp, "term": tm, "anomaly": what}})
+    jp = [(st, sp) for st, sp, _ in judged]
+    jcodes, jobs_, _, jerrs = check_err(jp, obs=[o for _, _, o in judged], tag="c19xj")
+    out["errors"] += jerrs
+    hist, classes = {}, {}
+    for lb, o in zip(labels, obs):
+        key = lb + " -> " + ("accepted" if o["k"] == 0 else o.get("cls", "?").rsplit(".", 1)[-1])
+        hist[key] = hist.get(key, 0) + 1
+    out["histogram"]["which_error_cases_by_faults_and_outcome"] = dict(sorted(hist.items()))
+    for o in list(obs) + list(jobs_):
+        if o["k"]:
+            nm = f"{o.get('cls')} / message kind {o.get('msgk')}"
+            classes[nm] = classes.get(nm, 0) + 1
+    out["histogram"]["exception_classes_seen (exact class, message kind 1 invalid-spec 2 invalid-style 3 value)"] = classes
+    failing = []
+    for (st, sp), o, c in list(zip(pairs, obs, codes)) + list(zip(jp, jobs_, jcodes)):
+        if c >= 2:
+            failing.append((st, sp, o, c))
+        elif c == 1:
+            out["mismatches"].append({"what": "raised error differs from the call-chain model (FmtErr.impl_error) only",
+                                      "style": st, "spec": sp, "observed": {k: o.get(k) for k in ("k", "cls", "msgk", "msg")}})
+    failing.sort(key=lambda f: (len(f[1]), f[1]))
+    seen = set()
+    have = {f["signature"] for f in out["failures"]}
+    for st, sp, o, c in failing:
+        if len(seen) >= 3:
+            break
+        small = sp if ctx.replay else shrink_err(st, sp)
+        if small in seen:
+            continue
+        seen.add(small)
+        if small != sp:
+            cs, ob, _, _ = check_err([(st, small)], tag="c19xr")
+            o, c = ob[0], cs[0]
+        f = err_failure(st, small, o, c)
+        if f["signature"] not in have:
+            out["failures"].append(f)
+    out["extra"]["which_error_failing_seen"] = len(failing)
+    if not ctx.replay:
+        out.setdefault("_env_samples", [])
+        out["_env_samples"] += [f"which-error {st}:{sp!r} [{lb}]" for (st, sp), lb in list(zip(pairs, labels))[5:400:97]]
+    return {("err", st, sp) for st, sp in pairs}
 
 
 # --------------------------------------------------------------------- main
@@ -1171,7 +1379,8 @@ def run(ctx):
 
     env_replay = bool(ctx.replay) and ctx.replay["replay"].get("kind") == "env"
     den_replay = bool(ctx.replay) and str(ctx.replay["replay"].get("kind", "")).startswith("den-")
-    if env_replay or den_replay:
+    err_replay = bool(ctx.replay) and ctx.replay["replay"].get("kind") == "err"
+    if env_replay or den_replay or err_replay:
         triples, acc_cases, samples = [], [], []
     elif ctx.replay:
         rp = ctx.replay["replay"]
@@ -1279,6 +1488,11 @@ def run(ctx):
             o, c = ob[0], cs[0]
         out["failures"].append(failure_of(st, small, tm, o, c))
     out["extra"]["failing_specifiers_seen"] = len(failing)
+    # 6. which error a rejected specifier raises (two-fault specifiers + every case judged above)
+    err_distinct = set()
+    if err_replay or not ctx.replay:
+        err_distinct = err_part(ctx, out, [] if ctx.replay or errs else
+                                [(st, sp, o) for (st, sp, _), o in zip(all_triples, obs) if o is not None])
     # 4. the same interpretation in every process environment
     # 5. denotation on the output (transparency under a known / undetermined terminal background;
     #    frames carried for animated file sources) — judged concurrently with part 4
@@ -1305,6 +1519,7 @@ def run(ctx):
         out["extra"].update(den_out["extra"])
         out["evaluations"] += den_out["evaluations"]
         env_distinct = env_distinct | (den_res[0] if den_res else set())
+    env_distinct = env_distinct | err_distinct
     if out["extra"].get("outcome_counts_differ_from_documented_grammar") and not out["failures"]:
         out["errors"].append("the numbers of accepted / StyleError / ValueError strings differ from the documented "
                              "grammar's but no individual failing specifier was confirmed")
@@ -1346,7 +1561,11 @@ def run(ctx):
                  "pixels at floor-1 .. floor+2); still PNG sources (RGBA / LA / P / RGB / L; file, PIL image with file name, PIL "
                  "image in memory; fitting / down-scaled; method L / W / A; read_from_file library default / on / off) on iterm2 "
                  "and kitty: the transmitted pictures are decoded and their pixels judged against the source pixel "
-                 "(FmtDenPixTie.tcheck); counted: distinct jobs."),
+                 "(FmtDenPixTie.tcheck); counted: distinct jobs.  Round 9, which error: specifiers wrong in more than one "
+                 "way (general-form fault x foreign leading / trailing portion / fields out of order / field of another style "
+                 "x z-index at and beyond +-2**31 in ASCII and Arabic-Indic digits; per style) and every case of part 2: the "
+                 "EXACT exception class (module-qualified name) is judged inside Coq against FmtErr.spec_error and class + "
+                 "message kind against FmtErr.impl_error (FmtErrTie.echeck); counted: distinct (style, specifier)."),
         "samples": samples + [f"{st}:{sp!r}" for st, sp, _, _ in acc_cases[:3]] + out.get("_env_samples", []),
         "histogram": out["histogram"],
         "mismatches": out["mismatches"],
@@ -1363,6 +1582,12 @@ def run(ctx):
             "inputs (environment variables, the terminal's identity) are exercised only as far as the child processes "
             "of the correspondence fix them (COLUMNS/LINES = the terminal size, queries disabled)",
             "z-index digits: the documentation says 'integer'; read as what int() accepts (Unicode decimal digits)",
+            "which error: the documentation fixes the exception CLASS (ValueError for the general form and for out-of-range "
+            "values, StyleError for a style part that is not a sentence: BaseImage._check_style_format_spec 'Raises' + 'Handle "
+            "the portions in the order invalid, parent, current, so that validity can be determined before any further "
+            "processing'); the wording of the messages and which of several out-of-range fields of ONE level is reported are "
+            "not documented: the message kind is compared with the model of the code only; from a specifier only kitty's "
+            "z-index can be out of range (compression is one digit 0-9, 'c10' is 'c1' + a foreign trailing '0')",
             "denotation on the output: Pillow's alpha compositing is the exact blend to within one unit per channel (two units "
             "for a transmitted picture that was resampled first); the terminal's background colour enters through "
             "the test-suite's stub of get_fg_bg_colors()",
